@@ -18,7 +18,14 @@ def make(spec):
     if spec[0] == 'cdf':
         return A.CDFEstimator(spec[1])
     if spec[0] == 'grid':
-        return A.CDFEstimator(list(spec[1]))
+        if len(spec[1]) % 2:
+            return A.CDFEstimator(list(spec[1]))
+        # the grid comes as one row of the caller's table of grids, and the caller goes on using that table
+        table = np.array([sorted(spec[1]), sorted(spec[1])], dtype=float)
+        est = A.CDFEstimator(table[0])
+        table *= 7.0
+        table[:, 1:] += 3.0
+        return est
     if spec[0] == 'quantile':
         return A.QuantileEstimator(spec[1])
     if spec[0] == 'median':
@@ -208,3 +215,51 @@ def excusable(ranks_differ, pre_state, q, x):
     paper_step(dict(p=q, N=pre_state[0], q=list(pre_state[1]), n=[int(t) + 1 for t in pre_state[2]]), x, margins=mg, rank_margins=rmg)
     pool = rmg if ranks_differ else mg
     return bool(pool) and min(pool) < 1e-9
+
+
+def gen_rejects(rng, n):
+    """[[i, kind]]: before observation i the estimator is offered something it cannot take; the caller catches the exception
+    and carries on (a corrupt record in a long stream)"""
+    if n < 2 or rng.random() > 0.25:
+        return []
+    # (after at least one accepted observation: the very first one also fixes the shape)
+    return sorted([rng.randrange(1, n), rng.choice(['text', 'wrongshape'])] for _ in range(rng.choice([1, 1, 2])))
+
+
+def offer_rejected(est, kind, shape):
+    """returns None if the estimator refused and kept its state, else a complaint"""
+    import numpy as np
+    ncomp = int(np.prod(shape)) if shape else 1
+    before = [state(est, c if shape else None) for c in range(ncomp)]
+    n0 = est.n
+    bad = 'n/a' if kind == 'text' else np.arange(float(ncomp + 1))
+    try:
+        est.accumulate(bad)
+    except Exception:  # noqa
+        after = [state(est, c if shape else None) for c in range(ncomp)]
+        if est.n != n0 or repr(after) != repr(before):
+            return 'a rejected observation (%s) changed the estimator: n %s -> %s' % (kind, n0, est.n)
+        return None
+    return 'accepted'          # the implementation took it (broadcasting): nothing to compare, the case is dropped
+
+
+def reinit(est, spec):
+    """call the constructor again on a used estimator (a long-lived object that is reset between runs)"""
+    if spec[0] == 'cdf':
+        est.__init__(spec[1])
+    elif spec[0] == 'grid':
+        est.__init__(list(spec[1]))
+    elif spec[0] == 'quantile':
+        est.__init__(spec[1])
+    else:
+        est.__init__()
+    return est
+
+
+def grid_complaint(est, spec):
+    """the estimator's grid is the grid it was given, whatever the caller does with its own array afterwards"""
+    if spec[0] != 'grid':
+        return None
+    got = [float(t) for t in est.q_desired]
+    want = sorted(float(t) for t in spec[1])
+    return None if got == want else 'the estimator runs with the grid %s, it was given %s (and the caller changed its own array afterwards)' % (got[:6], want[:6])
